@@ -45,7 +45,7 @@ Proof. apply done_inv. Qed.
 
 (* ------------------------------------------------------------------ C19_sees *)
 Theorem nothing_missed cs cap t tr s i c p q m :
-  reach cs cap t tr s -> nth_error (callers s) i = Some c -> c_st c = CWaiting -> cursor (ch s) i = Some p ->
+  reach cs cap t tr s -> nth_error (callers s) i = Some c -> (c_st c = CWaiting \/ c_st c = CWritten) -> cursor (ch s) i = Some p ->
   nth_error (log (ch s)) q = Some (IMsg m) -> answers m (c_serial c) = true -> p <= q.
 Proof.
   intros Hr Hc Hst Hcur Hn Ha. destruct (le_lt_dec p q) as [|Hlt]; [assumption|].
@@ -55,6 +55,13 @@ Qed.
 (* a caller that subscribed is never without cursor before it completes: its stream can always be polled *)
 Theorem waiting_has_cursor cs cap t tr s i c :
   reach cs cap t tr s -> nth_error (callers s) i = Some c -> c_st c = CWaiting -> exists p, cursor (ch s) i = Some p /\ p <= tail (ch s).
+Proof.
+  intros Hr Hc Hst. pose proof (rcv_inv _ _ _ _ _ Hr i) as H. unfold has_cursor, active_at in H. rewrite Hc, Hst in H. cbn in H.
+  destruct (cursor (ch s) i) as [p|] eqn:E; [|discriminate]. exists p. split; [reflexivity|]. eapply curle_inv; eassumption.
+Qed.
+
+Theorem written_has_cursor cs cap t tr s i c :
+  reach cs cap t tr s -> nth_error (callers s) i = Some c -> c_st c = CWritten -> exists p, cursor (ch s) i = Some p /\ p <= tail (ch s).
 Proof.
   intros Hr Hc Hst. pose proof (rcv_inv _ _ _ _ _ Hr i) as H. unfold has_cursor, active_at in H. rewrite Hc, Hst in H. cbn in H.
   destruct (cursor (ch s) i) as [p|] eqn:E; [|discriminate]. exists p. split; [reflexivity|]. eapply curle_inv; eassumption.
@@ -114,6 +121,10 @@ Proof.
   - repeat split; [assumption | apply Hnil].
   - repeat split; [assumption | apply Hnil].
   - rewrite hijack_callers, hijack_cursor, hijack_log. repeat split; [assumption | apply Hnil].
+  - destruct (Hupd i0 c0 CWritten H ltac:(congruence)) as [E Hne]. repeat split; [exact E | apply Hnil].
+  - destruct (Hupd i0 c0 (CDone RNoReply) H ltac:(congruence)) as [E Hne]. repeat split; [exact E | | apply Hnil].
+    apply cursor_drop_other; congruence.
+  - destruct (Hupd i0 c0 CWaiting H ltac:(congruence)) as [E Hne]. repeat split; [exact E | apply Hnil].
 Qed.
 
 Lemma nth_error_ext {A} (l ext : list A) j x : nth_error l j = Some x -> nth_error (l ++ ext) j = Some x.
@@ -300,13 +311,15 @@ Qed.
 Definition delivery_statement (only_without_hijack : bool) : Prop :=
   forall cs cap0 t tr s i c m rest, reach cs cap0 t tr s -> (only_without_hijack = true -> has_hijack tr = false) ->
     reader s = RIdle -> socket s = IMsg m :: rest ->
-    nth_error (callers s) i = Some c -> c_st c = CWaiting -> answers m (c_serial c) = true -> qlen (ch s) < cap (ch s) ->
+    nth_error (callers s) i = Some c -> (c_st c = CWaiting \/ c_st c = CWritten) -> answers m (c_serial c) = true -> qlen (ch s) < cap (ch s) ->
     exists s', exec [LRead; LPush; LNext] s = Some s' /\ log (ch s') = log (ch s) ++ [IMsg m] /\ reader s' = RIdle /\ socket s' = rest.
 
 Theorem delivery_partial : delivery_statement true.
 Proof.
   intros cs cap0 t tr s i c m rest Hr Hh Hrd Hso Hc Hst Ha Hroom. destruct (keys_inv _ _ _ _ _ Hr (Hh eq_refl)) as [Hkr Hke].
-  destruct (waiting_has_cursor _ _ _ _ _ i c Hr Hc Hst) as (p & Hcur & _).
+  assert (Hcur' : exists p, cursor (ch s) i = Some p).
+  { destruct Hst as [Hst|Hst]; [destruct (waiting_has_cursor _ _ _ _ _ i c Hr Hc Hst) as (p & Hp & _) | destruct (written_has_cursor _ _ _ _ _ i c Hr Hc Hst) as (p & Hp & _)]; eauto. }
+  destruct Hcur' as (p & Hcur).
   assert (Hncl : closed (ch s) = false).
   { destruct (closed (ch s)) eqn:E; [|reflexivity]. destruct (closed_inv _ _ _ _ _ Hr E) as [Hx|[Hx _]]; congruence. }
   assert (Hfan : fanout s (IMsg m) = 1).
@@ -347,7 +360,7 @@ Theorem hijack_refuted : ~ delivery_statement false.
 Proof.
   intros H.
   destruct (H hijack_cs 8 false hijack_trace hijack_witness 0 {| c_kind := KCall; c_serial := 1%N; c_st := CWaiting |} hijack_reply []
-              hijack_witness_reach) as (s' & He & _); try reflexivity; try discriminate.
+              hijack_witness_reach) as (s' & He & _); try reflexivity; try discriminate; try (left; reflexivity).
   vm_compute. lia.
 Qed.
 
@@ -395,14 +408,14 @@ Qed.
 Theorem delivery_partial_stated :
   forall cs cap0 t tr s i c m rest, reach cs cap0 t tr s -> has_hijack tr = false ->
     reader s = RIdle -> socket s = IMsg m :: rest ->
-    nth_error (callers s) i = Some c -> c_st c = CWaiting -> answers m (c_serial c) = true -> qlen (ch s) < cap (ch s) ->
+    nth_error (callers s) i = Some c -> (c_st c = CWaiting \/ c_st c = CWritten) -> answers m (c_serial c) = true -> qlen (ch s) < cap (ch s) ->
     exists s', exec [LRead; LPush; LNext] s = Some s' /\ log (ch s') = log (ch s) ++ [IMsg m] /\ reader s' = RIdle /\ socket s' = rest.
 Proof. intros cs cap0 t tr s i c m rest Hr Hk. exact (delivery_partial cs cap0 t tr s i c m rest Hr (fun _ => Hk)). Qed.
 
 Theorem hijack_refuted_stated :
   ~ (forall cs cap0 t tr s i c m rest, reach cs cap0 t tr s ->
        reader s = RIdle -> socket s = IMsg m :: rest ->
-       nth_error (callers s) i = Some c -> c_st c = CWaiting -> answers m (c_serial c) = true -> qlen (ch s) < cap (ch s) ->
+       nth_error (callers s) i = Some c -> (c_st c = CWaiting \/ c_st c = CWritten) -> answers m (c_serial c) = true -> qlen (ch s) < cap (ch s) ->
        exists s', exec [LRead; LPush; LNext] s = Some s' /\ log (ch s') = log (ch s) ++ [IMsg m] /\ reader s' = RIdle /\ socket s' = rest).
 Proof. intros H. apply hijack_refuted. intros cs cap0 t tr s i c m rest Hr _. exact (H cs cap0 t tr s i c m rest Hr). Qed.
 
@@ -410,6 +423,24 @@ Theorem hijacked_returns_lost : forall s0 s tr' s',
   step (LHijack false) s0 = Some s -> exec tr' s = Some s' ->
   forall m, In (IMsg m) (log (ch s')) -> m_type m = TReturn -> In (IMsg m) (log (ch s)).
 Proof. intros s0 s tr' s' Hh He. exact (proj2 (returns_lost_for_ever tr' s s' (hijack_ret_dead s0 s Hh) He)). Qed.
+
+(* NoReplyExpected when the write completes before send() returns: complete at the return *)
+Theorem noreply_completes_late s i c : nth_error (callers s) i = Some c -> c_st c = CWritten -> c_kind c = KNoReply ->
+  exists s', step (LRet i) s = Some s' /\ st_at s' i = Some (CDone RNoReply).
+Proof.
+  intros Hc Hst Hk. unfold step. rewrite Hc, Hst, Hk. eexists. split; [reflexivity|].
+  unfold st_at. cbn [callers finish]. cbn [callers with_wlock]. erewrite nth_error_upd_same by eassumption. reflexivity.
+Qed.
+
+(* the interleaving a "send first, subscribe afterwards" variant of call_method_raw loses: the call's bytes are out, the peer's
+   reply arrives and is handled completely by the socket reader BEFORE send() returns to the caller, no other call is pending.
+   The receiver was activated before the send, so the reply is in the channel and the caller gets it. *)
+Definition early_cs : list (ckind * N) := [(KCall, 1%N)].
+Definition early_reply : msg := {| m_id := 0; m_type := TReturn; m_rs := Some 1%N |}.
+Definition early_trace : list label := [LSub 0; LLock 0; LWire 0; LArrive (IMsg early_reply); LRead; LPush; LNext; LRet 0; LRecv 0].
+Lemma early_reply_received :
+  exists s, exec early_trace (init early_cs 8 false) = Some s /\ st_at s 0 = Some (CDone (ROk early_reply)) /\ done_log s = [(0, ROk early_reply)].
+Proof. eexists. split; [vm_compute; reflexivity|]. vm_compute. split; reflexivity. Qed.
 
 (* ------------------------------------------------------------------ non-vacuity: three callers, replies out of order, one of them
    queued before its caller ever polls, a stray, a failure at the end *)
